@@ -634,8 +634,471 @@ def shipped_cases(ctx, npoints, res):
     return out
 
 
+# ------------------------------------------------------------------ many points through ONE shared HashTable
+R_GAS = 8.314462618
+PRECISIONS = [0, 1, 2, 3, 4, 4, 4, 5, 6, 8]
+
+
+class _Rec:
+    pass
+
+
+class AnalyticTherm:
+    """a thermodynamics object whose equilibrium is a cheap, deterministic, smooth-in-T function of (x, T): it supplies
+    exactly what `_computeSingleMobility` reads on a cache MISS (`getEq(...).eq.MU`, `.get_composition_sets()` with
+    `phase_record.phase_name/nonvacant_elements`, `NP`, `X`, `dof`; `mobCallables`, `mobility_correction`), so the real
+    miss path (u-fraction scaling, element un-sorting, add to the table) runs.  Mobilities are Arrhenius in T
+    (Q = 120..320 kJ/mol: 1.5..4 % per kelvin near 1000 K), phase fractions and phase compositions vary with x and T."""
+
+    def __init__(self, spec):
+        import random
+        self.spec = spec
+        self.elements = list(spec['elements']) + ['VA']
+        self.numElements = len(spec['elements'])
+        self.phases = list(spec['phases'])
+        self.mobility_correction = None
+        self.ncalls = 0
+        q = random.Random(spec['seed'])
+        E = self.numElements
+        self.alpha = sorted(spec['elements'])           # pycalphad lists components alphabetically
+        self.pos = [self.alpha.index(e) for e in spec['elements']]
+        self.par = {}
+        self.mobCallables = {}
+        for ph in self.phases:
+            self.par[ph] = dict(c=q.uniform(-1, 1), d=[q.uniform(-3, 3) for _ in range(E)], e=q.uniform(-2, 2),
+                                h=[q.uniform(-1, 1) for _ in range(E)])
+            if ph not in spec['nomob']:
+                d = {}
+                for el in self.alpha:
+                    m0 = 10 ** q.uniform(-9, -5); Q = q.uniform(1.2e5, 3.2e5); k = q.uniform(-0.5, 0.5)
+                    d[el] = (lambda dof, m0=m0, Q=Q, k=k: m0 * math.exp(-Q / (R_GAS * dof[0])) * (1 + k * dof[1]))
+                self.mobCallables[ph] = d
+        self.order = list(self.phases)
+        q.shuffle(self.order)                            # order of the composition sets: not the database order
+        self.mu0 = [q.uniform(-8e4, -2e4) for _ in range(E)]
+
+    def getEq(self, x, T, gExtra=0, precPhase=None):
+        self.ncalls += 1
+        x = [float(v) for v in np.atleast_1d(x)]
+        T = float(T)
+        full_user = [1.0 - sum(x)] + x                   # user order: solvent first
+        full = [0.0] * self.numElements                  # alphabetical
+        for i, v in enumerate(full_user):
+            full[self.pos[i]] = v
+        tt = (T - 1000.0) / 300.0
+        w = {ph: math.exp(self.par[ph]['c'] + sum(a * b for a, b in zip(self.par[ph]['d'], full)) + self.par[ph]['e'] * tt)
+             for ph in self.phases}
+        tot = sum(w.values())
+        top = max(w.values())
+        stable = [ph for ph in self.order if w[ph] / tot >= 0.15 or w[ph] == top]
+        ts = sum(w[ph] for ph in stable)
+        sets = []
+        for ph in stable:
+            g = [max(v, 1e-9) * math.exp(h * (1 + 0.2 * tt)) for v, h in zip(full, self.par[ph]['h'])]
+            gs = sum(g)
+            cs = _Rec()
+            cs.phase_record = _Rec()
+            cs.phase_record.phase_name = ph
+            cs.phase_record.nonvacant_elements = list(self.alpha)
+            cs.NP = w[ph] / ts
+            cs.X = [v / gs for v in g]
+            cs.dof = np.array([T] + cs.X, dtype=np.float64)
+            sets.append(cs)
+        wks = _Rec()
+        wks.eq = _Rec()
+        wks.eq.MU = np.array([[m + R_GAS * T * math.log(max(v, 1e-12)) for m, v in zip(self.mu0, full)]])
+        wks.get_composition_sets = lambda: sets
+        return wks
+
+
+_EL_NAMES = ['NI', 'CR', 'AL', 'FE', 'W', 'MO', 'ZR', 'TI']
+
+
+def gen_therm_spec(r):
+    E = r.choice([2, 2, 3, 3, 4])
+    els = r.sample(_EL_NAMES, E)
+    nph = r.randint(1, 4)
+    phases = ['P%d' % i for i in range(nph)]
+    r.shuffle(phases)
+    nomob = [ph for ph in phases if r.random() < 0.2]
+    if len(nomob) == len(phases):
+        nomob = nomob[1:]
+    return dict(kind='analytic', elements=els, phases=phases, nomob=nomob, seed=r.getrandbits(32))
+
+
+def build_therm(spec):
+    if spec['kind'] == 'analytic':
+        return AnalyticTherm(spec)
+    key = ('purity',) + tuple(spec['elements'])
+    if key not in _DB_CACHE:
+        from kawin.thermo import GeneralThermodynamics
+        from kawin.tests.datasets import NICRAL_TDB
+        with warnings.catch_warnings():
+            warnings.simplefilter('ignore')
+            _DB_CACHE[key] = GeneralThermodynamics(NICRAL_TDB, spec['elements'], ['FCC_A1', 'BCC_A2'])
+    return _DB_CACHE[key]
+
+
+def gen_purity_case(r, spec=None, small=False):
+    """a history on ONE table: control events and pipeline calls (scalar / array / temperature gradient at one
+    composition / composition profile at one temperature) over a pool of points built around a few base points with
+    offsets below, near and above the resolution 10^-s of the table AND temperature offsets inside one kelvin"""
+    spec = spec or gen_therm_spec(r)
+    E = len(spec['elements'])
+    db = list(spec['phases'])
+    s0 = r.choice(PRECISIONS)
+    res = 10.0 ** (-s0)
+    shipped = spec['kind'] != 'analytic'
+    T0 = r.choice([1073.0, 900.0, 1073.15, 1200.5, round(r.uniform(800, 1500), 1), r.uniform(800, 1500)])
+    if shipped:
+        T0 = r.choice([1073.0, 1073.15, 1173.5, round(r.uniform(1000, 1300), 1)])
+    pts = []
+
+    def add(x, T):
+        p = (tuple(float(v) for v in x), float(T))
+        if p not in pts:
+            pts.append(p)
+        return pts.index(p)
+
+    def base_x():
+        if E == 2:
+            return [round(r.uniform(0.03, 0.95), 4)]
+        tot = r.uniform(0.05, 0.9)
+        w = [r.random() + 0.05 for _ in range(E - 1)]
+        return [round(max(0.01, tot * v / sum(w)), 4) for v in w]
+
+    dTs = [0.0, 0.25, 0.5, 0.8, 0.3, 1.0, 1.3, 5.0, 0.3 * res, 0.9 * res, 1.1 * res, 3 * res, 12 * res]
+    dxs = [0.4 * res, 1.2 * res, 3 * res, 30 * res, 0.01]
+    bases = []
+    for _ in range(r.randint(1, 2 if small else 3)):
+        x = base_x()
+        bases.append(x)
+        for d in r.sample(dTs, r.randint(2, 4 if small else 6)):
+            add(x, T0 + d)
+        for _ in range(r.randint(0, 2)):
+            d = r.choice(dxs)
+            j = r.randrange(E - 1)
+            if x[j] + d < 0.97 and sum(x) + d < 0.98:
+                y = list(x); y[j] = x[j] + d
+                add(y, T0 + r.choice([0.0, 0.0, 0.5, 0.9 * res]))
+    cfgs = []
+    for _ in range(r.randint(2, 3)):
+        post = gen_post(r, db, db)
+        if post[0] in ('predefined', 'exclude') and r.random() < 0.5:
+            post = ('none', None)
+        req, via = gen_factor(r)
+        cfgs.append(dict(rule=r.randrange(5), n=float(np.clip(req, 1, 2)) if via else req, post=post))
+    events = []
+    if r.random() < 0.6 or s0 != 4:
+        events.append(['sens', s0])
+    else:
+        s0 = 4
+    calls = []
+    ncall = r.randint(3, 5) if small else r.randint(4, 9)
+    for _ in range(ncall):
+        if events and r.random() < 0.2:
+            k = r.random()
+            if k < 0.35:
+                events.append(['sens', r.choice(PRECISIONS)])
+            elif k < 0.6:
+                events.append(['clear'])
+            else:
+                events.append(['enable', r.random() < 0.5])
+        if calls and r.random() < 0.4:
+            c = list(r.choice(calls))                      # the same sweep again; sometimes under another rule / mode
+            if r.random() < 0.5:
+                c[1] = r.randrange(len(cfgs))
+        else:
+            form = r.choice(['scalar', 'scalar', 'array', 'array', 'gradient', 'gradient', 'profile'])
+            ci = r.randrange(len(cfgs))
+            if form == 'scalar':
+                c = ['call', ci, [r.randrange(len(pts))], 'scalar']
+            elif form == 'array':
+                c = ['call', ci, [r.randrange(len(pts)) for _ in range(r.randint(2, 5 if small else 8))], 'array']
+            elif form == 'gradient':
+                x = r.choice(bases)
+                step = r.choice([0.1, 0.25, 0.25, 0.5, 0.8, 1.0, 2.5, 2 * res, 0.5 * res])
+                n = r.randint(3, 5 if small else 9)
+                c = ['call', ci, [add(x, T0 + step * i) for i in range(n)], r.choice(['array', 'xT-broadcast'])]
+            else:
+                T = T0 + r.choice([0.0, 0.5])
+                ids = []
+                for _ in range(r.randint(2, 4 if small else 6)):
+                    ids.append(add(base_x() if r.random() < 0.5 else r.choice(bases), T))
+                c = ['call', ci, ids, r.choice(['array', 'Tx-broadcast'])]
+        calls.append(c)
+        events.append(list(c))
+    return dict(kind='purity', therm=spec, db=db, points=[[list(p[0]), p[1]] for p in pts], cfgs=cfgs, events=events)
+
+
+def purity_call(th, case, ev, ht):
+    """one pipeline call on the implementation: (N x E answers, N x E chemical potentials) or `Raised`"""
+    from kawin.diffusion.HomogenizationParameters import computeHomogenizationFunction
+    _, ci, ids, form = ev
+    P = case['points']
+    E1 = len(P[0][0])
+    xs = [P[i][0] for i in ids]
+    Ts = [P[i][1] for i in ids]
+    one = (lambda x: x[0]) if E1 == 1 else (lambda x: list(x))
+    if form == 'scalar':
+        x, T = one(xs[0]), Ts[0]
+    elif form == 'xT-broadcast':
+        x, T = one(xs[0]), np.array(Ts)
+    elif form == 'Tx-broadcast':
+        x, T = ([v[0] for v in xs] if E1 == 1 else np.array(xs)), Ts[0]
+    else:
+        x, T = ([v[0] for v in xs] if E1 == 1 else np.array(xs)), np.array(Ts)
+    hp = make_hp(case['cfgs'][ci])
+    try:
+        with np.errstate(all='ignore'), warnings.catch_warnings():
+            warnings.simplefilter('ignore')
+            out, mu = computeHomogenizationFunction(th, x, T, hp, ht)
+    except Exception as e:      # noqa
+        tb = traceback.format_exc()
+        if not vlib.in_repo_traceback(tb):
+            raise
+        rr = Raised(type(e).__name__)
+        sites = [l.strip() for l in tb.splitlines() if l.strip().startswith('File "%s' % vlib.REPO)]
+        rr.site = sites[-1] if sites else None
+        rr.msg = str(e)[:200]
+        return rr
+    n = len(ids)
+    return np.reshape(np.asarray(out, dtype=np.float64), (n, -1)).tolist(), np.reshape(np.asarray(mu, dtype=np.float64), (n, -1)).tolist()
+
+
+def same_vals(a, b, rtol=1e-9):
+    return len(a) == len(b) and all(close(u, v, rtol) for u, v in zip(a, b))
+
+
+def within_resolution(p, q, s):
+    """every coordinate of the two points closer than 10^-s (what equal keys imply: theorem keyF_eq_within), with the
+    rounding of the double product v*10^s allowed for"""
+    res = 10.0 ** (-s)
+    a = list(p[0]) + [p[1]]; b = list(q[0]) + [q[1]]
+    return len(a) == len(b) and all(abs(u - v) <= res * (1 + 1e-9) + 4e-16 * max(abs(u), abs(v)) for u, v in zip(a, b))
+
+
+def check_purity(case, res, model_ans=None):
+    """ORACLE: every answer obtained through the shared table equals the FRESH evaluation (no table) of the point itself,
+    or of a point evaluated earlier on this table — since it was last emptied, while caching was on — that lies within
+    the table's resolution 10^-s of it in every coordinate (composition and temperature); the same point asked twice in
+    one epoch gives the same answer.  CORRESPONDENCE: which record served each point, and every value, against
+    Homog.runPipeline with the 64-bit key."""
+    from kawin.diffusion.DiffusionParameters import HashTable, computeMobility
+    from kawin.diffusion.HomogenizationParameters import computeHomogenizationFunction
+    th = build_therm(case['therm'])
+    P = [(tuple(p[0]), float(p[1])) for p in case['points']]
+    cfgs = case['cfgs']
+    E1 = len(P[0][0])
+    one = (lambda x: x[0]) if E1 == 1 else (lambda x: list(x))
+    desc = {k: v for k, v in case.items() if not k.startswith('_')}
+    fresh = {}
+
+    def fresh_eval(ci, pi):
+        if (ci, pi) not in fresh:
+            hp = make_hp(cfgs[ci])
+            try:
+                with np.errstate(all='ignore'), warnings.catch_warnings():
+                    warnings.simplefilter('ignore')
+                    o, m = computeHomogenizationFunction(th, one(P[pi][0]), P[pi][1], hp)      # no table: caching off
+                fresh[ci, pi] = ([float(v) for v in np.atleast_1d(o)], [float(v) for v in np.atleast_1d(m)])
+            except ValueError:
+                fresh[ci, pi] = 'ValueError'
+        return fresh[ci, pi]
+
+    ht = HashTable()
+    sens, flag = 4, True
+    stored = []              # points the table may hold: evaluated in this epoch while caching was on
+    evaluated = []           # (point index, why it is no longer / not admissible) for classification
+    seen_rec = {}
+    keep = []
+    epoch_answers = {}       # (cfg index, point index) -> answer in this epoch (twice = once)
+    impl_src = []            # per call: list of source point indices (or None for a call that raised)
+    impl_out = []
+    stale_why = None
+    ncall = 0
+    for ev in case['events']:
+        if ev[0] == 'sens':
+            ht.setHashSensitivity(ev[1]); sens = int(ev[1])
+            evaluated += [(i, 'after-precision-change') for i in stored]; stored = []; epoch_answers = {}
+            res.count('purity:event:set-precision')
+            continue
+        if ev[0] == 'clear':
+            ht.clearCache()
+            evaluated += [(i, 'after-clear') for i in stored]; stored = []; epoch_answers = {}
+            res.count('purity:event:clear')
+            continue
+        if ev[0] == 'enable':
+            ht.enableCaching(bool(ev[1])); flag = bool(ev[1]); epoch_answers = {}
+            res.count('purity:event:enable-%s' % bool(ev[1]))
+            continue
+        _, ci, ids, form = ev
+        ncall += 1
+        cfg = cfgs[ci]
+        res.count('purity:call:' + form); res.count('purity:precision:%d' % sens)
+        got = purity_call(th, case, ev, ht)
+        cdesc = dict(desc, failing_call=ncall - 1, precision=sens, caching=flag)
+        if isinstance(got, str):
+            impl_out.append(got); impl_src.append(None)
+            if known_names(dict(db=case['db']), cfg):
+                res.violate('raises:computeHomogenizationFunction:shared-table:%s-call:%s' % (form, got),
+                            'a pipeline call through the shared table raised %s: %s' % (got, getattr(got, 'msg', '')),
+                            dict(cdesc, raised_at=getattr(got, 'site', None)), str(got), 'an answer')
+            else:
+                res.count('purity:unknown-name-ValueError')
+                if got != 'ValueError':
+                    res.violate('post-%s-unknown-name-handling' % post_tag(cfg['post']), 'a name that is not a database phase was not reported as ValueError',
+                                cdesc, str(got), 'ValueError')
+            if flag and ids:
+                stored.append(ids[0])       # the first point's record is added before the exception
+            continue
+        outs, mus = got
+        impl_out.append(outs)
+        # ---- which record served each point (identity of the object the table holds for it)
+        srcs = []
+        for pi in ids:
+            rec = ht.retrieveFromHashTable(np.array(P[pi][0], dtype=np.float64), np.float64(P[pi][1])) if flag else None
+            if rec is None:
+                srcs.append(pi)
+            else:
+                if id(rec) not in seen_rec:
+                    seen_rec[id(rec)] = pi; keep.append(rec)
+                srcs.append(seen_rec[id(rec)])
+        impl_src.append(srcs)
+        # ---- direct oracle, point by point in the order of the call
+        for j, pi in enumerate(ids):
+            out, mu = outs[j], mus[j]
+            adm = [pi] + ([q for q in stored if q != pi and within_resolution(P[pi], P[q], sens)] if flag else [])
+            ok = False
+            for q in adm:
+                f = fresh_eval(ci, q)
+                if not isinstance(f, str) and same_vals(out, f[0]) and same_vals(mu, f[1]):
+                    ok = True
+                    if q != pi:
+                        res.count('purity:served-by-point-within-resolution')
+                    break
+            if not ok:
+                f0 = fresh_eval(ci, pi)
+                want = f0 if isinstance(f0, str) else f0[0]
+                others = [(q, 'same-epoch') for q in stored] + list(evaluated)
+                hit = None
+                for q, why in others:
+                    f = fresh_eval(ci, q)
+                    if q != pi and not isinstance(f, str) and same_vals(out, f[0]):
+                        hit = (q, why); break
+                if hit is None:
+                    if not isinstance(f0, str) and same_vals(out, f0[0]):
+                        cls, what = 'chemical-potential-differs-from-fresh', 'the chemical potentials returned through the shared table differ from the fresh evaluation'
+                    else:
+                        cls, what = 'matches-no-evaluated-point', 'the answer through the shared table is the fresh answer of no point evaluated on it'
+                else:
+                    q, why = hit
+                    if not flag:
+                        cls = 'stale:while-caching-disabled'
+                    elif within_resolution(P[pi], P[q], sens) and why != 'same-epoch':
+                        cls = 'stale:' + why
+                    else:
+                        dT = abs(P[pi][1] - P[q][1]); dx = max([abs(a - b) for a, b in zip(P[pi][0], P[q][0])] + [0.0])
+                        tol = 10.0 ** (-sens) * (1 + 1e-9) + 4e-16 * max(abs(P[pi][1]), 1.0)
+                        parts = (['temperature'] if dT > tol else []) + (['composition'] if dx > tol else [])
+                        cls = 'from-point-beyond-resolution:' + ('+'.join(parts) or 'none')
+                    what = ('the answer for x=%s, T=%r through the shared table (precision %d: points closer than %g in every coordinate may share a record) '
+                            'is the fresh answer of x=%s, T=%r evaluated before it (|dT| = %.6g K)' % (
+                                list(P[pi][0]), P[pi][1], sens, 10.0 ** (-sens), list(P[q][0]), P[q][1], abs(P[pi][1] - P[q][1])))
+                res.violate('cached-vs-fresh:%s-call:%s' % ('scalar' if form == 'scalar' else 'array', cls), what,
+                            dict(cdesc, failing_point=pi, position_in_call=j, served_from=(hit[0] if hit else None)), out, want)
+            # ---- twice = once inside one epoch
+            prev = epoch_answers.get((ci, pi))
+            if prev is not None:
+                res.count('purity:same-point-again')
+                if not (same_vals(out, prev[0], 1e-12) and same_vals(mu, prev[1], 1e-12)):
+                    res.violate('twice-differs-from-once:shared-table:%s-call' % ('scalar' if form == 'scalar' else 'array'),
+                                'the same point under the same configuration, asked again on the same table, gives another answer',
+                                dict(cdesc, failing_point=pi, position_in_call=j), out, prev[0])
+            else:
+                epoch_answers[ci, pi] = (out, mu)
+            if flag and pi not in stored:
+                stored.append(pi)
+    # ---- correspondence with Homog.runPipeline
+    if model_ans is not None:
+        t = Toks(model_ans)
+        if not t.ok:
+            res.disagree('homog.pipeline model error', desc, 'ok', t.err)
+            return
+        recs = case['_records']
+        k = 0
+        for ev in case['events']:
+            if ev[0] != 'call':
+                continue
+            _, ci, ids, form = ev
+            tag = t.tok()
+            io, isrc = impl_out[k], impl_src[k]
+            k += 1
+            if tag == 'E':
+                err = t.tok()
+                if not (isinstance(io, str) and io == err):
+                    res.disagree('error/value of pipeline call %d' % (k - 1), desc, io if isinstance(io, str) else 'values', err)
+                continue
+            n = t.nat()
+            msrc, mval = [], []
+            for _ in range(n):
+                msrc.append(t.nat()); mval.append(t.flts())
+            if isinstance(io, str):
+                res.disagree('error/value of pipeline call %d' % (k - 1), desc, io, 'values')
+                continue
+            if msrc != isrc:
+                res.disagree('which record serves each point of pipeline call %d (precision / key)' % (k - 1), desc, isrc, msrc)
+                continue
+            for j, pi in enumerate(ids):
+                st, mob, fr = recs[msrc[j]]
+                want = ref_eval(case['db'], st, mob, fr, cfgs[ci])
+                if not vlib.all_close(io[j], mval[j], min(cond_rtol(want), 1e-3), col_scale(mob, cfgs[ci]['rule'])):
+                    res.disagree('value of point %d of pipeline call %d (%s, %s)' % (j, k - 1, RULES[cfgs[ci]['rule']], post_tag(cfgs[ci]['post'])),
+                                 desc, io[j], mval[j])
+
+
+def purity_records(case):
+    """fresh per-point records (no table) for the model's thermodynamics function"""
+    from kawin.diffusion.DiffusionParameters import computeMobility
+    th = build_therm(case['therm'])
+    E1 = len(case['points'][0][0])
+    recs = []
+    for x, T in case['points']:
+        with np.errstate(all='ignore'), warnings.catch_warnings():
+            warnings.simplefilter('ignore')
+            md = computeMobility(th, x[0] if E1 == 1 else list(x), T)
+        recs.append(([str(v) for v in md.phases[0]], from_arr(md.mobility[0]), [float(f) for f in md.phase_fractions[0]]))
+    return recs
+
+
+def purity_line(case):
+    ids = name_ids(dict(db=case['db'], stable=[]))
+    parts = ['homog.pipeline', enc_ilist([ids[s] for s in case['db']]), str(len(case['points']))]
+    for (x, T), (st, mob, fr) in zip(case['points'], case['_records']):
+        rows = to_arr(mob)
+        parts += [enc_list(x), f2b(T), enc_ilist([ids[s] for s in st]), str(len(rows))] + [enc_list(rw) for rw in rows] + [enc_list(fr)]
+    parts.append(str(len(case['events'])))
+    for ev in case['events']:
+        if ev[0] == 'enable':
+            parts.append('0 ' + vlib.enc_bool(ev[1]))
+        elif ev[0] == 'clear':
+            parts.append('1')
+        elif ev[0] == 'sens':
+            parts.append('2 %d' % ev[1])
+        else:
+            c = case['cfgs'][ev[1]]
+            parts.append('3 %d %s %s %s' % (c['rule'], f2b(c['n']), enc_post(c['post'], ids), enc_ilist(ev[2])))
+    return ' '.join(parts)
+
+
+def shipped_purity_specs(ctx):
+    specs = [dict(kind='shipped', elements=['NI', 'CR'], phases=['FCC_A1', 'BCC_A2'], nomob=[], seed=0),
+             dict(kind='shipped', elements=['NI', 'CR', 'AL'], phases=['FCC_A1', 'BCC_A2'], nomob=[], seed=0)]
+    return specs
+
+
 # ------------------------------------------------------------------ entry points
-def corr(ctx, n_hist=None, n_rules=None, oracle_only=False):
+def corr(ctx, n_hist=None, n_rules=None, oracle_only=False, n_pur=None):
     vlib.use_repo()
     res = Result()
     res.rule = ('(a) history cases: random database phase list (1-5 names, shuffled), 1-4 stable phases in their own order (6% duplicate name), '
@@ -645,14 +1108,26 @@ def corr(ctx, n_hist=None, n_rules=None, oracle_only=False):
                 '(c) NICRAL_TDB points with the real equilibrium. non-trivial = at least 2 stable phases; distinct = full input tuple')
     N1 = n_hist or ctx.n(6000, 80000)
     N2 = n_rules or ctx.n(10000, 150000)
+    N3 = n_pur or ctx.n(300, 5000)
     hist = [gen_history_case(ctx.rng) for _ in range(N1)]
     rules = [gen_rules_case(ctx.rng) for _ in range(N2)]
+    pur = [gen_purity_case(ctx.rng) for _ in range(N3)]
+    for spec in shipped_purity_specs(ctx):
+        pur += [gen_purity_case(ctx.rng, spec, small=True) for _ in range(ctx.n(3, 25))]
     use_model = ctx.driver_ok and not oracle_only
     ok, ship = vlib.guarded(res, 'shipped-database-setup', dict(kind='shipped-setup'), shipped_cases, ctx, ctx.n(4, 40), res)
     ship = ship if ok else []
     lines = [history_line(c) for c in hist] + [history_line(c) for _, c in ship]
     for c in rules:
         lines += rules_lines(c)
+    off_pur = len(lines)
+    pur_ok = []
+    for c in pur:
+        ok, recs = vlib.guarded(res, 'shared-table-records', c, purity_records, c)
+        if ok:
+            c['_records'] = recs
+            pur_ok.append(c)
+    lines += [purity_line(c) for c in pur_ok]
     model = vlib.run_driver(PROP, lines) if use_model else None
     for k, c in enumerate(hist):
         vlib.guarded(res, 'history-case', c, check_history, c, res, model[k] if model else None)
@@ -675,13 +1150,22 @@ def corr(ctx, n_hist=None, n_rules=None, oracle_only=False):
         res.case(('rules', repr(c['mob']), repr(c['fr']), c['req']), len(c['mob']) >= 2)
         if k < 1:
             res.sample(c)
+    for k, c in enumerate(pur_ok):
+        vlib.guarded(res, 'shared-table-history', {kk: vv for kk, vv in c.items() if not kk.startswith('_')},
+                     check_purity, c, res, model[off_pur + k] if model else None)
+        ncalls = sum(1 for ev in c['events'] if ev[0] == 'call')
+        res.case(('purity', repr(c['therm']), repr(c['points']), repr(c['events'])), len(c['points']) >= 2 and ncalls >= 2)
+        res.count('purity:' + c['therm']['kind'])
+        if k < 1:
+            res.sample({kk: vv for kk, vv in c.items() if not kk.startswith('_')})
+    res.traces += sum(1 for c in pur_ok if c['therm']['kind'] == 'shipped')
     vlib.finish_guard(res)
     return res
 
 
 def search(ctx, broken):
     """something no longer checks: look for a failing input with the oracle alone on a larger sample"""
-    return corr(ctx, n_hist=ctx.n(8000, 100000), n_rules=ctx.n(15000, 200000), oracle_only=True)
+    return corr(ctx, n_hist=ctx.n(8000, 100000), n_rules=ctx.n(15000, 200000), oracle_only=True, n_pur=ctx.n(800, 8000))
 
 
 def replay(ctx, entry):
@@ -689,7 +1173,8 @@ def replay(ctx, entry):
     c = entry['violation']['case']
     if 'case' in c and isinstance(c['case'], dict) and 'kind' in c['case']:
         c = c['case']            # a case recorded by vlib.guarded (the implementation raised)
-    c = {k: v for k, v in c.items() if k not in ('failing_cfg', 'order', 'raised_at')}
+    c = {k: v for k, v in c.items() if k not in ('failing_cfg', 'order', 'raised_at', 'failing_call', 'precision', 'caching',
+                                                 'failing_point', 'position_in_call', 'served_from')}
     res = Result()
 
     def shipped(c, with_cfgs):
@@ -712,6 +1197,8 @@ def replay(ctx, entry):
         vlib.guarded(res, 'averaging-functions', c, check_rules, c, res)
     elif kind == 'history':
         vlib.guarded(res, 'history-case', c, check_history, c, res)
+    elif kind == 'purity':
+        vlib.guarded(res, 'shared-table-history', c, check_purity, c, res)
     elif kind == 'shipped':
         vlib.guarded(res, 'shipped-history-case', {k: v for k, v in c.items()}, shipped, c, True)
     elif kind in ('shipped-point', 'shipped-load'):
